@@ -38,6 +38,15 @@ type xWrite struct {
 	Var, How, Sync string
 	Line           int
 }
+
+// xAccess: one read or write of a captured variable by a goroutine.  Form: whole (the variable itself),
+// elem (an element), field, deref.
+type xAccess struct {
+	Var, Form string
+	Write     bool
+	Sync      string
+	Line      int
+}
 type xExit struct {
 	Kind string
 	Line int
@@ -59,6 +68,9 @@ type xGo struct {
 	Closes     []xChan
 	Waits      bool
 	Unfollowed []string
+	Accesses   []xAccess
+	Multi      bool  // started inside a loop: several instances run concurrently
+	Main       bool  // not a goroutine: the part of the enclosing function that runs while its goroutines run
 	AddOK      bool  // a wg.Add accounts for this worker before it starts
 	RetNoClose []int // `return` statements located before the close(ch) this goroutine is responsible for
 }
@@ -190,12 +202,50 @@ func (c *walkCtx) itemDerived(e ast.Expr) bool {
 }
 
 func (c *walkCtx) anyHeld() bool {
+	for k, v := range c.held {
+		if v && !strings.HasPrefix(k, "r:") {
+			return true
+		}
+	}
+	return false
+}
+
+// readHeld: some lock (write or read) is held
+func (c *walkCtx) readHeld() bool {
 	for _, v := range c.held {
 		if v {
 			return true
 		}
 	}
 	return false
+}
+
+func accessForm(form string) string {
+	switch form {
+	case "elem", "field", "deref":
+		return form
+	}
+	return "whole"
+}
+
+// recordRead: a read of the lvalue chain e (x, x.f, x[i], *x …) rooted at a tracked variable.
+func (c *walkCtx) recordRead(e ast.Expr) {
+	id, idx, form := rootIdent(e)
+	if id == nil {
+		return
+	}
+	r, ok := c.tracked[c.obj(id)]
+	if !ok || r.name == "" {
+		return
+	}
+	sync := "none"
+	switch {
+	case c.readHeld():
+		sync = "mutex"
+	case len(idx) > 0 && c.itemDerived(idx[0]):
+		sync = "itemIndexed"
+	}
+	c.g.Accesses = append(c.g.Accesses, xAccess{Var: r.name, Form: accessForm(form), Sync: sync, Line: c.x.fset.Position(e.Pos()).Line})
 }
 
 func (c *walkCtx) how(form string) string {
@@ -228,6 +278,7 @@ func (c *walkCtx) recordWrite(lhs ast.Expr, pos token.Pos, form0 string) {
 		sync = "itemIndexed"
 	}
 	c.g.Writes = append(c.g.Writes, xWrite{Var: r.name, How: c.how(form), Sync: sync, Line: c.x.fset.Position(pos).Line})
+	c.g.Accesses = append(c.g.Accesses, xAccess{Var: r.name, Form: accessForm(form), Write: true, Sync: sync, Line: c.x.fset.Position(pos).Line})
 }
 
 func isNamed(t types.Type, pkg, name string) bool {
@@ -379,7 +430,15 @@ func (c *walkCtx) handleCall(call *ast.CallExpr, deferred bool) {
 			c.held[exprStr(recv)] = false
 		}
 		return
-	case "(*sync.RWMutex).RLock", "(*sync.RWMutex).RUnlock":
+	case "(*sync.RWMutex).RLock":
+		if recv != nil && !deferred {
+			c.held["r:"+exprStr(recv)] = true
+		}
+		return
+	case "(*sync.RWMutex).RUnlock":
+		if recv != nil && !deferred {
+			c.held["r:"+exprStr(recv)] = false
+		}
 		return
 	case "(*sync.WaitGroup).Wait":
 		if c.top {
@@ -399,6 +458,14 @@ func (c *walkCtx) handleCall(call *ast.CallExpr, deferred bool) {
 			if id != nil {
 				if r, ok := c.tracked[c.obj(id)]; ok && r.name != "" {
 					c.g.Writes = append(c.g.Writes, xWrite{Var: r.name, How: c.how("atomic." + fn.Name()), Sync: "atomic", Line: line})
+					c.g.Accesses = append(c.g.Accesses, xAccess{Var: r.name, Form: "whole", Write: true, Sync: "atomic", Line: line})
+				}
+			}
+		}
+		if len(call.Args) > 0 && strings.HasPrefix(fn.Name(), "Load") {
+			if id, _, _ := rootIdent(call.Args[0]); id != nil {
+				if r, ok := c.tracked[c.obj(id)]; ok && r.name != "" {
+					c.g.Accesses = append(c.g.Accesses, xAccess{Var: r.name, Form: "whole", Sync: "atomic", Line: line})
 				}
 			}
 		}
@@ -561,9 +628,45 @@ func (c *walkCtx) callsIn(e ast.Node) {
 			return false
 		case *ast.CallExpr:
 			c.handleCall(v, false)
+			if fn, _ := c.calleeOf(v); fn != nil && fn.Pkg() != nil && fn.Pkg().Path() == "sync/atomic" {
+				// the operand of an atomic call is not a plain read
+				for _, a := range v.Args[min(1, len(v.Args)):] {
+					c.callsIn(a)
+				}
+				return false
+			}
+		case *ast.UnaryExpr:
+			if v.Op == token.AND { // &x: taking the address is not a read of x
+				c.indexReads(v.X)
+				return false
+			}
+		case *ast.Ident, *ast.SelectorExpr, *ast.IndexExpr, *ast.StarExpr:
+			x := v.(ast.Expr)
+			if sel, ok := x.(*ast.SelectorExpr); ok {
+				if s, ok := c.info.Selections[sel]; ok && s.Kind() != types.FieldVal {
+					x = sel.X // a method: its receiver is what is read
+				} else if !ok {
+					return true // package-qualified name
+				}
+			}
+			if id, _, _ := rootIdent(x); id != nil {
+				if r, ok := c.tracked[c.obj(id)]; ok && r.name != "" {
+					c.recordRead(x)
+					c.indexReads(x)
+					return false
+				}
+			}
 		}
 		return true
 	})
+}
+
+// indexReads scans the index expressions of an lvalue chain (they are evaluated, hence read).
+func (c *walkCtx) indexReads(e ast.Expr) {
+	_, idx, _ := rootIdent(e)
+	for _, i := range idx {
+		c.callsIn(i)
+	}
 }
 
 func (c *walkCtx) walkBlock(list []ast.Stmt) {
@@ -622,10 +725,11 @@ func (c *walkCtx) walkStmt(s ast.Stmt) {
 				}
 				continue
 			}
-			c.callsIn(l)
+			c.indexReads(l)
 			c.recordWrite(l, v.Pos(), "")
 		}
 	case *ast.IncDecStmt:
+		c.indexReads(v.X)
 		c.recordWrite(v.X, v.Pos(), "incdec")
 	case *ast.SendStmt:
 		c.callsIn(v.Value)
@@ -965,6 +1069,186 @@ func addDominates(info *types.Info, fd *ast.FuncDecl, gs *ast.GoStmt) bool {
 	return ok
 }
 
+// containsGo: the statement starts a goroutine (not counting go statements inside function literals)
+func containsGo(s ast.Stmt) bool {
+	found := false
+	ast.Inspect(s, func(n ast.Node) bool {
+		switch n.(type) {
+		case *ast.FuncLit:
+			return false
+		case *ast.GoStmt:
+			found = true
+		}
+		return !found
+	})
+	return found
+}
+
+// mainRegions: the statements of the enclosing function that run WHILE its goroutines run: in the block
+// that starts them, what follows the first go statement up to a `wg.Wait()` or up to (and including) a
+// loop ranging over a channel (when that loop ends the channel has been closed: the workers are done).
+// Their accesses to the variables the goroutines capture take part in the read/write race decision.
+func (x *extractor) mainRegions(p *pkgData, fname string, fd *ast.FuncDecl) []*xGo {
+	// variables of fd captured by its go literals
+	tracked := map[types.Object]root{}
+	ast.Inspect(fd.Body, func(n ast.Node) bool {
+		gs, ok := n.(*ast.GoStmt)
+		if !ok {
+			return true
+		}
+		lit, ok := gs.Call.Fun.(*ast.FuncLit)
+		if !ok {
+			return true
+		}
+		ast.Inspect(lit.Body, func(m ast.Node) bool {
+			if id, ok := m.(*ast.Ident); ok {
+				if v, ok := p.info.Uses[id].(*types.Var); ok && !v.IsField() && !(v.Pos() >= lit.Pos() && v.Pos() < lit.End()) &&
+					v.Pkg() != nil && v.Pkg().Path() == "github.com/evolbioinfo/gotree/"+filepath.ToSlash(p.rel) {
+					tracked[v] = root{name: v.Name()}
+				}
+			}
+			return true
+		})
+		return true
+	})
+	var out []*xGo
+	var visit func(list []ast.Stmt)
+	visit = func(list []ast.Stmt) {
+		// a statement of this block starts goroutines that outlive it: a go statement, or a loop whose
+		// body has one directly (a loop that also joins them deeper inside is handled as a nested block)
+		startsHere := func(st ast.Stmt) bool {
+			var body *ast.BlockStmt
+			switch v := st.(type) {
+			case *ast.GoStmt:
+				return true
+			case *ast.ForStmt:
+				body = v.Body
+			case *ast.RangeStmt:
+				body = v.Body
+			}
+			if body != nil {
+				for _, b := range body.List {
+					if _, ok := b.(*ast.GoStmt); ok {
+						return true
+					}
+				}
+			}
+			return false
+		}
+		first := -1
+		for i, st := range list {
+			if startsHere(st) {
+				first = i
+				break
+			}
+		}
+		if first >= 0 {
+			var region []ast.Stmt
+			for _, st := range list[first+1:] {
+				if startsHere(st) {
+					continue
+				}
+				if _, isWait := isWGCall(p.info, st, "Wait"); isWait {
+					break
+				}
+				region = append(region, st)
+				if rs, ok := st.(*ast.RangeStmt); ok {
+					if tv, ok := p.info.Types[rs.X]; ok {
+						if _, isChan := tv.Type.Underlying().(*types.Chan); isChan {
+							break
+						}
+					}
+				}
+			}
+			if len(region) > 0 {
+				g := &xGo{File: fname, Fn: fd.Name.Name, Line: x.fset.Position(region[0].Pos()).Line, Main: true,
+					Exits: []xExit{{Kind: "rangeEnd", Line: x.fset.Position(region[len(region)-1].End()).Line, Done: false}}}
+				waited := false
+				tr := map[types.Object]root{}
+				for k, v := range tracked {
+					tr[k] = v
+				}
+				c := &walkCtx{x: x, info: p.info, g: g, tracked: tr, held: map[string]bool{}, enc: fd, encInfo: p.info,
+					waited: &waited, top: false, chain: map[string]bool{}, pkgPath: "github.com/evolbioinfo/gotree/" + filepath.ToSlash(p.rel)}
+				c.walkBlock(region)
+				g.Unfollowed = uniq(g.Unfollowed)
+				g.Closes, g.Sends, g.Waits = nil, nil, false
+				out = append(out, g)
+			}
+		}
+		// nested blocks (the goroutines of TBE are started inside the loop over the bootstrap trees)
+		for _, st := range list {
+			ast.Inspect(st, func(n ast.Node) bool {
+				switch v := n.(type) {
+				case *ast.FuncLit:
+					return false
+				case *ast.BlockStmt:
+					if containsGo(v) {
+						visit(v.List)
+					}
+					return false
+				}
+				return true
+			})
+		}
+	}
+	visit(fd.Body.List)
+	return out
+}
+
+// inLoop: the go statement is inside a for/range loop of the enclosing function
+func inLoop(fd *ast.FuncDecl, gs *ast.GoStmt) bool {
+	var stack []ast.Node
+	res := false
+	ast.Inspect(fd.Body, func(n ast.Node) bool {
+		if n == nil {
+			stack = stack[:len(stack)-1]
+			return true
+		}
+		if n == ast.Node(gs) {
+			for i := len(stack) - 1; i >= 0; i-- {
+				switch stack[i].(type) {
+				case *ast.ForStmt, *ast.RangeStmt:
+					res = true
+				case *ast.FuncLit:
+					i = -1
+				}
+			}
+		}
+		stack = append(stack, n)
+		return true
+	})
+	return res
+}
+
+// filterReads keeps, for the goroutines of one function, the reads of the variables some goroutine of
+// that function writes (the others cannot race), without duplicates.
+func filterReads(gos []*xGo) {
+	written := map[string]bool{}
+	for _, g := range gos {
+		for _, a := range g.Accesses {
+			if a.Write {
+				written[g.File+"\x00"+g.Fn+"\x00"+a.Var] = true
+			}
+		}
+	}
+	for _, g := range gos {
+		var keep []xAccess
+		seen := map[xAccess]bool{}
+		for _, a := range g.Accesses {
+			if !a.Write && !written[g.File+"\x00"+g.Fn+"\x00"+a.Var] {
+				continue
+			}
+			if seen[a] {
+				continue
+			}
+			seen[a] = true
+			keep = append(keep, a)
+		}
+		g.Accesses = keep
+	}
+}
+
 func returnsBeforeClose(fset *token.FileSet, lit *ast.FuncLit) []int {
 	var closePos token.Pos
 	for _, st := range lit.Body.List {
@@ -1045,6 +1329,13 @@ func pool(in <-chan int, cpus int) (<-chan int, *int) {
 				alias[1] = v
 				b.incLocked()
 				b.incBare()
+				if guarded > 3 {
+					v++
+				}
+				mu.Lock()
+				v += guarded + cells[v]
+				mu.Unlock()
+				v += int(atomic.LoadInt32(&cnt))
 				out <- v
 			}
 			wg.Done()
@@ -1063,6 +1354,8 @@ func pool(in <-chan int, cpus int) (<-chan int, *int) {
 		}
 		close(out)
 	}()
+	total := guarded + cells[0]
+	_ = total
 	return out, &shared
 }
 
@@ -1080,12 +1373,14 @@ func pool2(in <-chan int) {
 }
 `
 
-const selfTestWant = "pool counted=true add=true exits=[rangeEnd:true ret:false ret:true brk:true] " +
+const selfTestWant = "pool counted=true add=true multi=true exits=[rangeEnd:true ret:false ret:true brk:true] " +
 	"writes=[shared/assign/none guarded/assign/mutex guarded/incdec/none cnt/atomic.AddInt32/atomic cells/elem/itemIndexed cells/elem/none alias/elem/none " +
-	"b/field via (*selftest.box).incLocked/mutex b/field via (*selftest.box).incBare/none] closes=[] retNoClose=[]\n" +
-	"pool counted=false add=false exits=[rangeEnd:false] writes=[] closes=[out:false] retNoClose=[]\n" +
-	"pool counted=true add=false exits=[rangeEnd:false ret:false] writes=[] closes=[out:false] retNoClose=[1]\n" +
-	"pool2 counted=true add=false exits=[rangeEnd:true] writes=[] closes=[] retNoClose=[]\n"
+	"b/field via (*selftest.box).incLocked/mutex b/field via (*selftest.box).incBare/none] closes=[] " +
+	"reads=[b/field/mutex b/whole/none b/whole/none guarded/whole/none guarded/whole/mutex cells/elem/mutex cnt/whole/atomic] retNoClose=[]\n" +
+	"pool counted=false add=false multi=false exits=[rangeEnd:false] writes=[] closes=[out:false] reads=[] retNoClose=[]\n" +
+	"pool counted=true add=false multi=false exits=[rangeEnd:false ret:false] writes=[] closes=[out:false] reads=[] retNoClose=[1]\n" +
+	"pool counted=false add=false multi=false exits=[rangeEnd:false] writes=[] closes=[] reads=[guarded/whole/none cells/elem/none] retNoClose=[]\n" +
+	"pool2 counted=true add=false multi=true exits=[rangeEnd:true] writes=[] closes=[] reads=[] retNoClose=[]\n"
 
 // selfTest runs the analysis on selfTestSrc and compares what it finds with what was seeded.
 func selfTest() error {
@@ -1115,22 +1410,28 @@ func selfTest() error {
 		}
 	}
 	var b strings.Builder
+	var all []*xGo
 	for _, d := range f.Decls {
 		fd, ok := d.(*ast.FuncDecl)
 		if !ok || fd.Body == nil {
 			continue
 		}
 		ast.Inspect(fd.Body, func(n ast.Node) bool {
-			gs, ok := n.(*ast.GoStmt)
-			if !ok {
-				return true
+			if gs, ok := n.(*ast.GoStmt); ok {
+				if lit, ok := gs.Call.Fun.(*ast.FuncLit); ok {
+					all = append(all, x.analyse(p, "selftest.go", fd, gs, lit))
+				}
 			}
-			lit, ok := gs.Call.Fun.(*ast.FuncLit)
-			if !ok {
-				return true
-			}
-			g := x.analyse(p, "selftest.go", fd, gs, lit)
-			fmt.Fprintf(&b, "%s counted=%v add=%v exits=[", g.Fn, g.Counted, g.AddOK)
+			return true
+		})
+		if containsGo(fd.Body) {
+			all = append(all, x.mainRegions(p, "selftest.go", fd)...)
+		}
+	}
+	filterReads(all)
+	{
+		for _, g := range all {
+			fmt.Fprintf(&b, "%s counted=%v add=%v multi=%v exits=[", g.Fn, g.Counted, g.AddOK, g.Multi)
 			for i, e := range g.Exits {
 				if i > 0 {
 					b.WriteByte(' ')
@@ -1151,9 +1452,20 @@ func selfTest() error {
 				}
 				fmt.Fprintf(&b, "%s:%v", c.Name, c.Wait)
 			}
+			b.WriteString("] reads=[")
+			first := true
+			for _, a := range g.Accesses {
+				if a.Write {
+					continue
+				}
+				if !first {
+					b.WriteByte(' ')
+				}
+				first = false
+				fmt.Fprintf(&b, "%s/%s/%s", a.Var, a.Form, a.Sync)
+			}
 			fmt.Fprintf(&b, "] retNoClose=[%d]\n", len(g.RetNoClose))
-			return true
-		})
+		}
 	}
 	got := strings.ReplaceAll(b.String(), "retNoClose=[0]", "retNoClose=[]")
 	if got != selfTestWant {
@@ -1195,6 +1507,7 @@ func (x *extractor) analyse(p *pkgData, fname string, fd *ast.FuncDecl, gs *ast.
 	g.Counted = loop != nil && usesWaitGroup(p.info, fd)
 	g.Exits = x.exitsOf(p.info, lit, loop)
 	g.AddOK = addDominates(p.info, fd, gs)
+	g.Multi = inLoop(fd, gs)
 	g.RetNoClose = returnsBeforeClose(x.fset, lit)
 	// captured variables: declared outside the literal (locals of the enclosing function, its
 	// parameters and results, package-level variables)
@@ -1286,12 +1599,15 @@ func extractGoroutines(repo string) ([]*xGo, error) {
 							gos = append(gos, x.analyse(p, fname, fd, gs, lit))
 						} else {
 							gos = append(gos, &xGo{File: fname, Fn: fd.Name.Name, Line: x.fset.Position(gs.Pos()).Line,
-								Exits: []xExit{{Kind: "rangeEnd", Line: x.fset.Position(gs.End()).Line, Done: false}},
+								Exits:      []xExit{{Kind: "rangeEnd", Line: x.fset.Position(gs.End()).Line, Done: false}},
 								Unfollowed: []string{"go " + exprStr(gs.Call.Fun) + " (not a function literal)"}})
 						}
 					}
 					return true
 				})
+				if containsGo(fd.Body) {
+					gos = append(gos, x.mainRegions(p, fname, fd)...)
+				}
 			}
 		}
 	}
@@ -1301,10 +1617,12 @@ func extractGoroutines(repo string) ([]*xGo, error) {
 		}
 		return gos[i].Line < gos[j].Line
 	})
+	filterReads(gos)
 	// the hash map shared by the workers: for every exported method of *HashMap, the writes it makes
 	// through its receiver and the lock held (one pseudo entry per method, Fn = "HashMap.<method>")
 	for _, p := range pkgs {
-		if p.rel != "hashmap" {
+		typeName := map[string]string{"hashmap": "HashMap", "support": "Supporter"}[p.rel]
+		if typeName == "" {
 			continue
 		}
 		for _, f := range p.files {
@@ -1315,14 +1633,14 @@ func extractGoroutines(repo string) ([]*xGo, error) {
 					continue
 				}
 				ro := p.info.Defs[fd.Recv.List[0].Names[0]]
-				if ro == nil || !isNamed(ro.Type(), "github.com/evolbioinfo/gotree/hashmap", "HashMap") {
+				if ro == nil || !isNamed(ro.Type(), "github.com/evolbioinfo/gotree/"+p.rel, typeName) {
 					continue
 				}
-				g := &xGo{File: filepath.ToSlash(fname), Fn: "HashMap." + fd.Name.Name, Line: x.fset.Position(fd.Pos()).Line,
+				g := &xGo{File: filepath.ToSlash(fname), Fn: typeName + "." + fd.Name.Name, Line: x.fset.Position(fd.Pos()).Line,
 					Exits: []xExit{{Kind: "rangeEnd", Line: x.fset.Position(fd.End()).Line, Done: false}}}
 				waited := false
 				c := &walkCtx{x: x, info: p.info, g: g, tracked: map[types.Object]root{ro: {name: ro.Name()}}, held: map[string]bool{},
-					enc: fd, encInfo: p.info, waited: &waited, top: false, chain: map[string]bool{}, pkgPath: "github.com/evolbioinfo/gotree/hashmap"}
+					enc: fd, encInfo: p.info, waited: &waited, top: false, chain: map[string]bool{}, pkgPath: "github.com/evolbioinfo/gotree/" + p.rel}
 				c.walkBlock(fd.Body.List)
 				g.Unfollowed = uniq(g.Unfollowed)
 				hmMethods = append(hmMethods, g)
@@ -1340,7 +1658,9 @@ func emitLean(gos []*xGo, out string) error {
 	var names []string
 	for _, g := range gos {
 		role := "go"
-		if g.Counted {
+		if g.Main {
+			role = "main"
+		} else if g.Counted {
 			role = "worker"
 		} else if g.Waits {
 			role = "closer"
@@ -1378,7 +1698,15 @@ func emitLean(gos []*xGo, out string) error {
 			}
 			fmt.Fprintf(&b, "(%s, %d, %v)", leanStr(s.Name), s.Line, s.Wait)
 		}
-		fmt.Fprintf(&b, "],\n    waits := %v, addOK := %v, returnsBeforeClose := %s,\n    unfollowed := [", g.Waits, g.AddOK, strings.ReplaceAll(fmt.Sprint(append([]int{}, g.RetNoClose...)), " ", ", "))
+		b.WriteString("],\n    accesses := [")
+		for i, a := range g.Accesses {
+			if i > 0 {
+				b.WriteString(",\n      ")
+			}
+			fmt.Fprintf(&b, "⟨%s, %s, %v, .%s, %d⟩", leanStr(a.Var), leanStr(a.Form), a.Write, a.Sync, a.Line)
+		}
+		fmt.Fprintf(&b, "],\n    multi := %v", g.Multi)
+		fmt.Fprintf(&b, ",\n    waits := %v, addOK := %v, returnsBeforeClose := %s,\n    unfollowed := [", g.Waits, g.AddOK, strings.ReplaceAll(fmt.Sprint(append([]int{}, g.RetNoClose...)), " ", ", "))
 		for i, s := range g.Unfollowed {
 			if i > 0 {
 				b.WriteString(", ")
@@ -1392,16 +1720,44 @@ func emitLean(gos []*xGo, out string) error {
 	b.WriteString("def exitsWithoutDone : List Exit := goroutines.flatMap Goroutine.exitsWithoutDone\n\n")
 	b.WriteString("/-- writes of goroutines to captured variables with no synchronisation -/\n")
 	b.WriteString("def unsyncSharedWrites : List Write := goroutines.flatMap Goroutine.unsyncSharedWrites\n\n")
+	b.WriteString("/-- read/write races between goroutines visible in the table -/\n")
+	b.WriteString("def readWriteRaces : List (String × Nat × Nat) := racePairs goroutines\n\n")
 	b.WriteString("/-- writes of the exported methods of *hashmap.HashMap through their receiver (method, write) -/\n")
 	b.WriteString("def hashMapWrites : List (String × Write) := [")
 	first := true
 	for _, g := range hmMethods {
+		if !strings.HasPrefix(g.Fn, "HashMap.") {
+			continue
+		}
 		for _, w := range g.Writes {
 			if !first {
 				b.WriteString(",\n  ")
 			}
 			first = false
 			fmt.Fprintf(&b, "(%s, ⟨%s, %s, .%s, %d⟩)", leanStr(g.Fn), leanStr(w.Var), leanStr(w.How), w.Sync, w.Line)
+		}
+	}
+	b.WriteString("]\n\n")
+	b.WriteString("/-- every access (read or write) the exported methods of *hashmap.HashMap and *support.Supporter make to the state behind their receiver (method, access) -/\n")
+	b.WriteString("def hashMapAccesses : List (String × Access) := [")
+	first = true
+	seenHM := map[string]bool{}
+	for _, g := range hmMethods {
+		for _, a := range g.Accesses {
+			if a.Form == "whole" {
+				continue // the receiver pointer itself
+			}
+			a.Line = 0 // one entry per (method, form, read/write, lock)
+			k := fmt.Sprint(g.Fn, a)
+			if seenHM[k] {
+				continue
+			}
+			seenHM[k] = true
+			if !first {
+				b.WriteString(",\n  ")
+			}
+			first = false
+			fmt.Fprintf(&b, "(%s, ⟨%s, %s, %v, .%s, %d⟩)", leanStr(g.Fn), leanStr(a.Var), leanStr(a.Form), a.Write, a.Sync, a.Line)
 		}
 	}
 	b.WriteString("]\n\n")
